@@ -204,14 +204,15 @@ def run_check(pid, tier, seed, replay=None):
     if fatal:
         print(f"[{pid}] check crashed (see traceback); this is a broken check, not a verdict", flush=True)
         return 2
-    seen = set()
-    for i, v in enumerate(unlisted):
-        if v["signature"] in seen and i > 8:
+    per_sig = {}
+    unlisted_sorted = sorted(unlisted, key=lambda v: len(json.dumps(v["replay"], default=str)))
+    for i, v in enumerate(unlisted_sorted):
+        per_sig[v["signature"]] = per_sig.get(v["signature"], 0) + 1
+        if per_sig[v["signature"]] > 3:
             continue
-        seen.add(v["signature"])
         p = write_replay(ctx, v, i)
         tail = "" if v["found_input"] else " no-failing-input-found"
-        print(f"[{pid}] {v['what'][:600]}")
+        print(f"[{pid}] ({v['signature']}) {v['what'][:700]}")
         print(f"VIOLATION property={pid} replay={p}{tail}", flush=True)
     ctx.log(f"done: {ctx.evaluations} evaluations, {len(ctx.nontrivial_keys)} distinct non-trivial, "
             f"{len(unlisted)} violations, {len(ctx.known_hits)} known findings, {time.time()-ctx.t0:.0f}s")
